@@ -23,8 +23,10 @@ PARTIAL = ["C09_full (every run of every script keeps every result) is kept as a
            "is conditional on windows_consumed (every par branch and the run end with both slider windows exhausted: a computable "
            "check, windows_consumed_b, on the driver forest of that run); fold / canon / ap states are covered at the merger level "
            "(C09_state_keep_merger_*) and by exploration only",
-           "windows_consumed itself is not proved for honest histories (it follows from the approximation invariant of DESIGN "
-           "appendix B, which is not proved); the oracle measures the conclusion on every run instead"]
+           "windows_consumed itself is not proved for honest histories in general (it follows from the approximation invariant of "
+           "DESIGN appendix B); that invariant is proved ONLY for straight-line scripts on several peers (call with literal target/service/function and literal or plain-scalar arguments, ap of a literal or scalar, seq, xor, match, mismatch, fail, null, never; model/NetLin.v): C09_linear_nothing_forgotten -- in every honest "
+           "history of SeqLocal's network the executed/failed states a host holds are a prefix of the full sequential trace that "
+           "never shrinks across a step (run1 and run2); elsewhere the oracle measures the conclusion on every run instead"]
 ASSUMPTIONS = ["symbolic content ids: Values.cid_eqb decides equality (collision resistance of the hash, DESIGN section 5)",
                "services are deterministic functions of (peer, service, function, arguments); the host follows air/README.md"]
 ORACLES = ("C09",)
